@@ -1,7 +1,225 @@
-/-  C07/Driver — line protocol front end (core-only).  Placeholder until the property is built. -/
-import OttoVerif.Base.Proto
-namespace OttoVerif.C07.Driver
+/-
+  C07/Driver — line protocol front end (core-only) and the deviation regions.
 
-def handle (_ws : List String) : String := "bad-op"
+  request:  h <op> <op> …          (one history, run from the empty heap)
+    P.<strict>.<a>.<n>.<v>         O[a].n = v            (strict: inside a "use strict" function)
+    X.<strict>.<a>.<n>             delete O[a].n
+    D.<a>.<n>.<desc>               Object.defineProperty(O[a], n, desc)
+    M.<a>/<n>.<desc>/<n>.<desc>…   Object.defineProperties(O[a], {n: desc, …})
+    C.<p>/<n>.<desc>/…             O.push(Object.create(p = '-' ? null-or-Object.prototype : O[p], {…}))
+    F.<a>  S.<a>  E.<a>            Object.freeze / seal / preventExtensions
+    <desc> = N (not an object) | <e>.<c>.<w>.<v>.<g>.<s>   with '-' = field absent;
+             e,c,w ∈ 0|1; v = value code; g,s ∈ u (undefined) | b (not callable) | function index
+  reply:    <model> <spec> <dev>   model/spec = per step `out|calls|obj|obj…` joined by ';'
+-/
+import OttoVerif.Base.Proto
+import OttoVerif.C07.Spec
+namespace OttoVerif.C07.Driver
+open OttoVerif.C07
+
+/-! ### deviation regions (decidable predicates over the request, evaluated along the model run) -/
+
+/-- `Dev_generic_loses_writable`: a generic, non-empty descriptor is accepted for an existing
+    WRITABLE data property – the stored write trit becomes 2 ("unset"), which reads as not writable. -/
+def devGenericAt (o : MObj) (n : Name) (d : MProp) : Bool :=
+  match alookup n o.props with
+  | some prop =>
+    (match prop.value with | .val _ => true | _ => false) && prop.writable &&
+    d.isGenericDescriptor && !d.isEmpty && (defineOwn o n d).isSome
+  | none => false
+
+/-- `Dev_acc_to_data_keeps_accessor`: an accessor property is redefined with a data descriptor that
+    has `writable` but no `value` – otto keeps the getter/setter pair as the "value". -/
+def devAccToDataAt (o : MObj) (n : Name) (d : MProp) : Bool :=
+  match alookup n o.props with
+  | some prop =>
+    (match prop.value with | .gs _ _ => true | _ => false) &&
+    d.isDataDescriptor && (match d.value with | .nil => true | _ => false) && (defineOwn o n d).isSome
+  | none => false
+
+/-- regions hit while otto processes a property list one entry at a time -/
+def devList (o : MObj) : List (Name × DescArg) → Bool × Bool
+  | [] => (false, false)
+  | (n, d) :: t =>
+    match toPropertyDescriptor d with
+    | none => (false, false)
+    | some desc =>
+      match defineOwn o n desc with
+      | none => (false, false)
+      | some o' =>
+        let r := devList o' t
+        (devGenericAt o n desc || r.1, devAccToDataAt o n desc || r.2)
+
+/-- `Dev_defineProperties_not_atomic`: some entry other than the first fails ToPropertyDescriptor -/
+def devNotAtomic : List (Name × DescArg) → Bool
+  | [] => false
+  | _ :: t => t.any (fun nd => (toPropertyDescriptor nd.2).isNone)
+
+/-- `Dev_accessor_both_undefined`: the heap holds an accessor property whose getter and setter are
+    both undefined – getOwnPropertyDescriptor then reports neither get/set nor value/writable. -/
+def devBothUndef (h : MHeap) : Bool :=
+  h.any (fun o => o.props.any (fun kp => match kp.2.value with | .gs .nil .nil => true | _ => false))
+
+/-- names enumerated by otto's for-in from an object on the chain although an earlier object on the
+    chain has a property of that name -/
+def shadowedOn (h : MHeap) : Nat → Option Addr → List Name → Bool
+  | 0, _, _ => false
+  | _ + 1, none, _ => false
+  | f + 1, some a, seen =>
+    match h[a]? with
+    | none => false
+    | some o => (enumerate o false).any (fun n => seen.contains n) || shadowedOn h f o.proto (seen ++ akeys o.props)
+
+/-- `Dev_forin_shadowed` -/
+def devForIn (h : MHeap) : Bool :=
+  (List.range h.length).any (fun a => shadowedOn h (fuel h) (some a) [])
+
+/-- `Dev_strict_ignored`: an assignment / delete in strict code that ES5 makes throw (the model's
+    sloppy run of the same operation is refused) – otto has no strict mode. -/
+def devStrict (h : MHeap) : Op → Bool
+  | .put true a n v =>
+    (match h[a]? with
+     | none => false
+     | some o =>
+       match canPutDetails h o n with
+       | (false, _, _) => true
+       | (true, _, some _) => false
+       | (true, some prop, none) => (defineOwn o n { prop with value := .val v }).isNone
+       | (true, none, none) => (defineOwn o n ⟨.val v, ⟨.on, .on, .on⟩⟩).isNone)
+  | .del true a n =>
+    (match h[a]? with
+     | none => false
+     | some o => match alookup n o.props with | some prop => !prop.configurable | none => false)
+  | _ => false
+
+def devStep (h : MHeap) (op : Op) (h' : MHeap) : List String :=
+  let (g, a2d) : Bool × Bool :=
+    match op with
+    | .defn a n d =>
+      (match h[a]?, toPropertyDescriptor d with
+       | some o, some desc => (devGenericAt o n desc, devAccToDataAt o n desc)
+       | _, _ => (false, false))
+    | .defs a l => (match h[a]? with | some o => devList o l | none => (false, false))
+    | .create p l => devList ⟨p, true, []⟩ l
+    | _ => (false, false)
+  let na := match op with
+    | .defs a l => (h[a]?).isSome && devNotAtomic l
+    | _ => false
+  (if devStrict h op then ["strict_ignored"] else []) ++
+  (if g then ["generic_loses_writable"] else []) ++
+  (if a2d then ["acc_to_data_keeps_accessor"] else []) ++
+  (if na then ["defineProperties_not_atomic"] else []) ++
+  (if devBothUndef h' then ["accessor_both_undefined"] else []) ++
+  (if devForIn h' then ["forin_shadowed"] else [])
+
+def devRun (h : MHeap) : List Op → List String
+  | [] => []
+  | op :: ops =>
+    let h' := (step h op).1
+    devStep h op h' ++ devRun h' ops
+
+/-! ### parsing -/
+
+def nat? (s : String) : Option Nat := s.toNat?
+
+def ob? : String → Option (Option Bool)
+  | "-" => some none | "0" => some (some false) | "1" => some (some true) | _ => none
+
+def gs? : String → Option GS
+  | "-" => some .absent | "u" => some .undef | "b" => some .bad
+  | s => (nat? s).map .fn
+
+def ov? : String → Option (Option Val)
+  | "-" => some none
+  | s => (nat? s).map some
+
+def desc? : List String → Option DescArg
+  | ["N"] => some .nonobj
+  | [e, c, w, v, g, s] => do
+    let e ← ob? e; let c ← ob? c; let w ← ob? w; let v ← ov? v; let g ← gs? g; let s ← gs? s
+    pure (.obj ⟨e, c, w, v, g, s⟩)
+  | _ => none
+
+def entry? (s : String) : Option (Name × DescArg) :=
+  match s.splitOn "." with
+  | n :: rest => do let n ← nat? n; let d ← desc? rest; pure (n, d)
+  | _ => none
+
+def entries? : List String → Option (List (Name × DescArg))
+  | [] => some []
+  | s :: t => do let e ← entry? s; let r ← entries? t; pure (e :: r)
+
+def bool? : String → Option Bool
+  | "0" => some false | "1" => some true | _ => none
+
+def op? (tok : String) : Option Op :=
+  match tok.splitOn "/" with
+  | [] => none
+  | hd :: ents =>
+    match hd.splitOn ".", ents with
+    | ["P", s, a, n, v], [] => do pure (.put (← bool? s) (← nat? a) (← nat? n) (← nat? v))
+    | ["X", s, a, n], [] => do pure (.del (← bool? s) (← nat? a) (← nat? n))
+    | "D" :: a :: n :: d, [] => do pure (.defn (← nat? a) (← nat? n) (← desc? d))
+    | ["M", a], es => do pure (.defs (← nat? a) (← entries? es))
+    | ["C", "-"], es => do pure (.create none (← entries? es))
+    | ["C", p], es => do pure (.create (some (← nat? p)) (← entries? es))
+    | ["F", a], [] => do pure (.freeze (← nat? a))
+    | ["S", a], [] => do pure (.seal (← nat? a))
+    | ["E", a], [] => do pure (.preventExt (← nat? a))
+    | _, _ => none
+
+def ops? : List String → Option (List Op)
+  | [] => some []
+  | s :: t => do let o ← op? s; let r ← ops? t; pure (o :: r)
+
+/-! ### printing -/
+
+def b01 (b : Bool) : String := if b then "1" else "0"
+
+def outS : Outcome → String
+  | .ok => "ok" | .typeError => "T" | .bool true => "t" | .bool false => "f" | .bad => "bad"
+
+def joinOr (sep : String) (l : List String) : String :=
+  if l.isEmpty then "-" else sep.intercalate l
+
+def fnS : Option Fn → String
+  | none => "u" | some k => toString k
+
+def descS : DescObs → String
+  | .none => "-"
+  | .data v w e c => "d" ++ toString v ++ "_" ++ b01 w ++ b01 e ++ b01 c
+  | .acc g s e c => "a" ++ fnS g ++ "_" ++ fnS s ++ "_" ++ b01 e ++ b01 c
+  | .weird e c => "x" ++ b01 e ++ b01 c
+  | .panic => "P"
+
+def nameObsS (o : NameObs) : String :=
+  toString o.get ++ "/" ++ b01 o.has ++ b01 o.own ++ b01 o.enum ++ "/" ++ descS o.desc
+
+def namesS (l : List Name) : String := joinOr "." (l.map toString)
+
+def objS (o : ObjObs) : String :=
+  b01 o.ext ++ b01 o.isSealed ++ b01 o.isFrozen ++ ":" ++ namesS o.keys ++ ":" ++ namesS o.names ++ ":" ++
+  namesS o.forin ++ ":" ++ ",".intercalate (o.per.map nameObsS)
+
+def callS (c : Call) : String := toString c.1 ++ "." ++ toString c.2.1 ++ "." ++ toString c.2.2
+
+def stepS (s : StepObs) : String :=
+  "|".intercalate ([outS s.out, joinOr "," (s.calls.map callS)] ++ s.objs.map objS)
+
+def runS (l : List StepObs) : String := joinOr ";" (l.map stepS)
+
+def dedup : List String → List String
+  | [] => []
+  | x :: t => if (dedup t).contains x then dedup t else x :: dedup t
+
+def handle (ws : List String) : String :=
+  match ws with
+  | "h" :: toks =>
+    match ops? toks with
+    | none => "bad-op"
+    | some ops =>
+      let dev := dedup (devRun [] ops)
+      runS (run [] ops) ++ " " ++ runS (Spec.run [] ops) ++ " " ++ joinOr "," dev
+  | _ => "bad-op"
 
 end OttoVerif.C07.Driver
